@@ -21,6 +21,7 @@ def run(tier: str) -> int:
     scns = [{"id": f"m{i}", "lvl": s["lvl"], "bl0": s["bl0"], "variant": i} for i, s in enumerate(scs)]
     scns += drv.random_scenarios(600 if tier == "quick" else 10000)
     recs = pmap(drv.exec_ojn, scns)
+    recs += pmap(drv.exec_bundled, drv.bundled_scenarios(tier), chunk=1)
     rejects, consumed, wall = validate_traces("O2JTrace", "O2JTrace", recs, tag=f"c07-{tier}")
     chk.add_traces(recs, rejects)
     chk.nontrivial = len({str(x["file"]["lvls"]) for x in recs})
